@@ -222,7 +222,19 @@ func c04ReadSite(file, callee, builder string) c04Site {
 	if !ok0 || !ok1 || a0.Sel.Name != "Rules" || a1.Sel.Name != "Fallback" || c04ExprStr(a0.X) != c04ExprStr(a1.X) {
 		site.glue = "rules-and-fallback-not-of-one-value"
 	}
-	for _, a := range theCall.Args[2:] {
+	optArgs := theCall.Args[2:]
+	if id, ok := theCall.Args[len(theCall.Args)-1].(*ast.Ident); ok && theCall.Ellipsis.IsValid() && len(theCall.Args) == 3 {
+		// `optimizers...`: a slice variable defined in the same function by a composite literal
+		ast.Inspect(body, func(n ast.Node) bool {
+			if as, ok := n.(*ast.AssignStmt); ok && len(as.Lhs) == 1 && len(as.Rhs) == 1 && c04ExprStr(as.Lhs[0]) == id.Name {
+				if cl, ok := as.Rhs[0].(*ast.CompositeLit); ok {
+					optArgs = cl.Elts
+				}
+			}
+			return true
+		})
+	}
+	for _, a := range optArgs {
 		u, ok := a.(*ast.UnaryExpr)
 		var cl *ast.CompositeLit
 		if ok {
